@@ -1741,6 +1741,14 @@ impl Sim {
         if sim.progressed {
             sim.stats.progress_runs = 1;
         }
+        if sim.max_alloc_inject > 0 {
+            let b = usize::BITS - sim.max_alloc_inject.leading_zeros();
+            sim.stats.probe(&format!("largest_allocation_in_injected_frame_below_2^{b:02}"));
+        }
+        if sim.max_alloc_clean > 0 {
+            let b = usize::BITS - sim.max_alloc_clean.leading_zeros();
+            sim.stats.probe(&format!("largest_allocation_in_clean_frame_below_2^{b:02}"));
+        }
         sim
     }
 }
